@@ -469,3 +469,26 @@ Fixpoint sml_adds (c : lcfg) (l : list elem) (es : list elem) : list elem * list
       | None => let '(l', o) := sml_adds c (l ++ [e]) r in (l', None :: o)
       end
   end.
+
+(* multi-element calls: extend / += add one item after the other and roll back on a refusal; the
+   value setter empties the list, extends, and restores the previous content on a refusal *)
+Fixpoint sml_extend_raw (c : lcfg) (l : list elem) (es : list elem) : list elem + err :=
+  match es with
+  | [] => inl l
+  | e :: r => match check_new c e l with
+              | Some x => inr x
+              | None => sml_extend_raw c (l ++ [e]) r
+              end
+  end.
+Inductive sop : Type := SAdd (e : elem) | SExtend (es : list elem) | SSetValue (es : list elem).
+Definition sml_step (c : lcfg) (l : list elem) (p : sop) : list elem * option err :=
+  match p with
+  | SAdd e => match check_new c e l with Some x => (l, Some x) | None => (l ++ [e], None) end
+  | SExtend es => match sml_extend_raw c l es with inl l' => (l', None) | inr x => (l, Some x) end
+  | SSetValue es => match sml_extend_raw c [] es with inl l' => (l', None) | inr x => (l, Some x) end
+  end.
+Fixpoint sml_run (c : lcfg) (l : list elem) (ops : list sop) : list elem * list (option err) :=
+  match ops with
+  | [] => (l, [])
+  | p :: r => let '(l1, o) := sml_step c l p in let '(l2, os) := sml_run c l1 r in (l2, o :: os)
+  end.
